@@ -4,6 +4,52 @@ import json, pathlib
 V = pathlib.Path(__file__).resolve().parent.parent
 ALL = [f"C{i:02d}" for i in range(1, 20)]
 CLAIMED = {
+ "C07": dict(
+   text="Coq theorems over Serial.v (the __getstate__/__setstate__ chain: channels drop connections and receivers, lexical objects "
+        "drop the parent and record the detached path, runnables drop future and live executor, composites store label tuples "
+        "and re-connect -- data in reverse for input priority, signals in stored order --, macros/for re-forge value links; "
+        "Node.load's second top-level cycle): every graph built by any op list is well formed; for any k+1 pickle (or file) trips "
+        "the result equals a closed form and is observationally the same node (labels, nesting, values with NOT_DATA distinct, flags, "
+        "executor instructions, links, starting nodes, per-input ordered data connections, signal connections as sets); a child "
+        "pickled alone comes back without parent/siblings; re-run equality under a canonical signal order; five refuted "
+        "witnesses (known findings). BEFORE/AFTER snapshots of real graphs through pickle, cloudpickle and save/load are compared "
+        "with the model and by an observation-equality oracle incl. re-run.",
+   design="13/C07", technique="Coq proofs (closed form of k round trips, invariant over build ops) + differential correspondence + oracle",
+   note="pickle's own fidelity trusted. Partial theorems carry guards equal to the cause predicates of five known findings "
+        "(unused macro input unloadable, running linked child blocks loading, link overwrites direct child edit, file load leaves "
+        "foreign channel owner, signal fan-out order changes execution order)."),
+ "C08": dict(
+   text="Coq theorems over Resume.v (nested DAG graphs with per-node output, cache key, failed/running; run = current run cycle until "
+        "the first failure with the recovery image written for the root after flags are final; load per Composite/Macro __setstate__): "
+        "exactly one recovery image, for the root, equal to the final state; for EVERY graph and every failing node at any depth: load, "
+        "fix the cause, clear failed on the node and its ancestors, run => outputs equal the uninterrupted twin's and exactly the "
+        "unfinished leaves are called; sequences of failures; checkpoint images: partial under 'file loads and running cleared', "
+        "and a universal refutation of the protocol as stated (known findings S19, S28). Every failing position of generated DAGs "
+        "incl. nested macros is run on the real library with real recovery/checkpoint files.",
+   design="13/C08", technique="Coq proofs (induction over nested graphs, invariant 'keyed leaves hold the right outputs') + differential correspondence + oracle",
+   note="Executors not covered (S6 makes executor failures invisible to the parent). Checkpoint resume is refuted for the protocol "
+        "the property states; proved under explicit flag clearing."),
+ "C09": dict(
+   text="Coq theorems over Macro.v (Macro._setup_node step by step: interface nodes, creation script with nested macros, links, "
+        "purge of single-use interface nodes, flow configuration; value setter with push to the receiver at any depth; run with "
+        "caches): macro outputs = plain composition = inlined body for every valid definition and every history of macro-level "
+        "updates; interface = definition; children connected only to siblings; macro and child channels distinct; sync down/up "
+        "through any nesting; 'always equal' over every history without receiving-side updates; refuted: receiving-side updates "
+        "(S14, by construction), duplicate returns, stale re-run after a child-level update (S5). Generated macro SOURCE is "
+        "imported and compared with the model, with the same body in a plain Workflow and with plain python.",
+   design="13/C09", technique="Coq proofs (induction on nesting depth and creation script) + differential correspondence on generated source + oracle",
+   note="Ints and int/object hints only; hand-wired flows as chains; execution order inside a DAG body is C01's."),
+ "C14": dict(
+   text="Coq theorems over Edit.v (connect/disconnect/copy_connections, value and value_receiver setters, copy_io with its undo "
+        "logs as written, remove/add/replace_child incl. Workflow IO maps, flow derivation with fallback recovery) with fault "
+        "counters that make the k-th connection / value / link transfer raise, for EVERY k and every graph: atomicity of "
+        "copy_connections, copy_io, replace_child and wiring under explicit guards; exact characterisation of what a successful "
+        "replacement inherits (label, parent, starting status, links: full; connections with positions: partial); eleven refuted "
+        "witnesses (nine known findings). Every child x candidate replacement x injected failure index on real Workflows and "
+        "Macros is compared with the model and with a snapshot-equality oracle.",
+   design="13/C14", technique="Coq proofs quantified over injected fault indices + differential correspondence with fault injection + oracle",
+   note="Macro/workflow children as replacement candidates, executors and post-edit runs not covered. The full all-or-nothing "
+        "statement is false on the code in nine identified ways (known findings); theorems are the strongest true guarded forms."),
  "C18": dict(
    text="Coq theorems over Inject.v (the injection label function as exact string concatenation, lookup-or-create per parent, the "
         "operator table incl. reflected forms and node delegation, Slice break-up, autorun rule, pull): every entry point creates "
